@@ -43,7 +43,9 @@ func HarnessC03PSI(n int) {
 	} else {
 		vreach("C03.psi.err")
 	}
-	isPSIComplete([]*Packet{{Payload: b}})
+	// the completeness test the packet pool runs on PAT/PMT PIDs, reached through the accumulator (the harness does not
+	// depend on the signature of the helper behind it)
+	newPacketAccumulator(PIDPAT, newProgramMap()).add(&Packet{Header: PacketHeader{PID: PIDPAT, HasPayload: true, PayloadUnitStartIndicator: true}, Payload: b})
 	vreach("C03.psi.end")
 }
 
@@ -154,4 +156,36 @@ func HarnessC03PacketAF(afLen, size int) {
 	} else {
 		vreach("C03.packetaf.err")
 	}
+}
+
+// HarnessC03Long: a unit of npk packets on one PID (PES, or PSI on the SDT PID) - the reassembly buffer comes from a
+// pool and grows with the unit: no panic at any size, the unit is delivered whole. first: a smaller unit demuxed
+// before, so that the pool hands back a buffer that is too small
+func HarnessC03Long(npk, psi, first int) {
+	s := &sStream{}
+	if first > 0 {
+		u0 := mkPESPattern(0x101, first*184-14, true, 1)
+		s.add(u0, packetize(u0, 0, 184, false))
+	}
+	var u *sUnit
+	if psi == 1 {
+		// a private section (table id 0x90, no syntax: stops the parser) spread over npk packets on the SDT PID
+		b := make([]byte, npk*184)
+		for i := range b {
+			b[i] = byte(0x40 + i%0x30)
+		}
+		b[0] = 0 // pointer_field
+		b[1] = 0x90
+		u = &sUnit{pid: 0x11, kind: 3, bytes: b}
+	} else {
+		u = mkPESPattern(0x100, npk*184-14, false, 2)
+	}
+	s.add(u, packetize(u, 5, 184, false))
+	got, ended := drainTolerant(s.bytes(), npk+first+6)
+	vassert("C03.long.terminates", ended)
+	if psi == 0 {
+		g := perPID(got, 0x100)
+		vassert("C03.long.delivered", len(g) == 1 && g[0].PES != nil && vBytesEq(g[0].PES.Data, u.pes.payload))
+	}
+	vreach("C03.long.end")
 }
